@@ -950,3 +950,259 @@ Proof.
     rewrite map_tl'.
     exact (tsi_run_tr w d _ _ sj ej (y, z) (forallb_tl _ _ H)).
 Qed.
+
+(* ---- bounding box of the segments ------------------------------------------------------------------ *)
+Lemma component_min_padd a b d : component_min (padd a d) (padd b d) = padd (component_min a b) d.
+Proof. unfold component_min, padd; cbn [px py]. f_equal; lia. Qed.
+Lemma component_max_padd a b d : component_max (padd a d) (padd b d) = padd (component_max a b) d.
+Proof. unfold component_max, padd; cbn [px py]. f_equal; lia. Qed.
+
+Lemma with_corners_translate a b d : with_corners (padd a d) (padd b d) = translate_rect (with_corners a b) d.
+Proof.
+  unfold with_corners, translate_rect, size_from_bounding_box, padd; cbn [px py tl sz].
+  f_equal; f_equal; lia.
+Qed.
+
+Lemma with_corners_tl a b : tl (with_corners a b) = component_min a b.
+Proof. reflexivity. Qed.
+
+Lemma with_corners_br a b :
+  match bottom_right (with_corners a b) with Some br => br | None => tl (with_corners a b) end = component_max a b.
+Proof.
+  unfold bottom_right, with_corners, size_from_bounding_box, component_max; cbn [tl sz sw sh px py].
+  destruct (0 <? Z.abs (px a - px b) + 1) eqn:A; [|lia]. destruct (0 <? Z.abs (py a - py b) + 1) eqn:B; [|lia].
+  cbn [andb]. f_equal; lia.
+Qed.
+
+(* the two corners edges_bounding_box hands to with_corners *)
+Definition ebb_corners (t : thick_segment) : point * point :=
+  let '(r, l) := ts_edges t in
+  if is_skeleton t then (l_start l, l_end l)
+  else (component_min (component_min (component_min (l_start r) (l_end r)) (l_start l)) (l_end l),
+        component_max (component_max (component_max (l_start r) (l_end r)) (l_start l)) (l_end l)).
+
+Lemma edges_bounding_box_corners t :
+  edges_bounding_box t = with_corners (fst (ebb_corners t)) (snd (ebb_corners t)).
+Proof.
+  unfold edges_bounding_box, ebb_corners. destruct (ts_edges t) as [r l]. destruct (is_skeleton t); reflexivity.
+Qed.
+
+Lemma ebb_corners_tr d t :
+  ebb_corners (tr_segment d t) = (padd (fst (ebb_corners t)) d, padd (snd (ebb_corners t)) d).
+Proof.
+  unfold ebb_corners. rewrite is_skeleton_tr, ts_edges_tr. destruct (ts_edges t) as [r l]. cbn [fst snd].
+  destruct (is_skeleton t); cbn [fst snd translate_line l_start l_end].
+  - reflexivity.
+  - rewrite !component_min_padd, !component_max_padd. reflexivity.
+Qed.
+
+Lemma edges_bounding_box_tr d t : edges_bounding_box (tr_segment d t) = translate_rect (edges_bounding_box t) d.
+Proof. rewrite !edges_bounding_box_corners, ebb_corners_tr. cbn [fst snd]. apply with_corners_translate. Qed.
+
+Definition bb_step (acc : point * point) (seg : thick_segment) : point * point :=
+  let bb := edges_bounding_box seg in
+  (component_min (fst acc) (tl bb),
+   component_max (snd acc) (match bottom_right bb with Some br => br | None => tl bb end)).
+
+Lemma bb_step_corners acc seg :
+  bb_step acc seg =
+  (component_min (fst acc) (component_min (fst (ebb_corners seg)) (snd (ebb_corners seg))),
+   component_max (snd acc) (component_max (fst (ebb_corners seg)) (snd (ebb_corners seg)))).
+Proof. unfold bb_step. rewrite edges_bounding_box_corners, with_corners_tl, with_corners_br. reflexivity. Qed.
+
+Lemma bb_fold_tr d : forall segs mn mx,
+  fold_left bb_step (map (tr_segment d) segs) (padd mn d, padd mx d) =
+  (padd (fst (fold_left bb_step segs (mn, mx))) d, padd (snd (fold_left bb_step segs (mn, mx))) d).
+Proof.
+  induction segs as [|s rest IH]; intros mn mx; [reflexivity|].
+  cbn [map fold_left]. rewrite !bb_step_corners, ebb_corners_tr. cbn [fst snd].
+  rewrite !component_min_padd, !component_max_padd. apply IH.
+Qed.
+
+(* coordinates the real code can hold at all; and the smaller range in which Rectangle::rows does not saturate *)
+Definition jbig : Z := 536870912. (* 2^29 *)
+Definition jpt_big (p : point) : Prop := - jbig <= px p <= jbig /\ - jbig <= py p <= jbig.
+Definition seg_ok (t : thick_segment) : Prop :=
+  jpt_big (l_start (fst (ts_edges t))) /\ jpt_big (l_end (fst (ts_edges t))) /\
+  jpt_big (l_start (snd (ts_edges t))) /\ jpt_big (l_end (snd (ts_edges t))).
+
+Lemma ebb_corners_big t : seg_ok t -> jpt_big (fst (ebb_corners t)) /\ jpt_big (snd (ebb_corners t)).
+Proof.
+  unfold seg_ok, ebb_corners, jpt_big. destruct (ts_edges t) as [r l]. cbn [fst snd].
+  intros [[A1 A2] [[B1 B2] [[C1 C2] [D1 D2]]]].
+  destruct (is_skeleton t); cbn [fst snd]; [tauto|].
+  unfold component_min, component_max; cbn [px py]. repeat split; lia.
+Qed.
+
+Lemma bb_step_init s : seg_ok s ->
+  bb_step (P i32_max i32_max, P i32_min i32_min) s =
+  (component_min (fst (ebb_corners s)) (snd (ebb_corners s)), component_max (fst (ebb_corners s)) (snd (ebb_corners s))).
+Proof.
+  intros H. destruct (ebb_corners_big s H) as [[A1 A2] [B1 B2]]. rewrite bb_step_corners. cbn [fst snd].
+  unfold jbig, i32_max, i32_min, component_min, component_max in *; cbn [px py]. f_equal; f_equal; lia.
+Qed.
+
+Lemma segments_bounding_box_fold segs :
+  segments_bounding_box segs =
+  with_corners (fst (fold_left bb_step segs (P i32_max i32_max, P i32_min i32_min)))
+               (snd (fold_left bb_step segs (P i32_max i32_max, P i32_min i32_min))).
+Proof.
+  unfold segments_bounding_box. fold bb_step.
+  change (fun (acc : point * point) seg => bb_step acc seg) with bb_step.
+  destruct (fold_left bb_step segs _) as [mn mx]. reflexivity.
+Qed.
+
+Lemma segments_bounding_box_tr d s rest : seg_ok s -> seg_ok (tr_segment d s) ->
+  segments_bounding_box (map (tr_segment d) (s :: rest)) = translate_rect (segments_bounding_box (s :: rest)) d.
+Proof.
+  intros H1 H2. rewrite !segments_bounding_box_fold. cbn [map fold_left].
+  rewrite (bb_step_init _ H1), (bb_step_init _ H2), ebb_corners_tr. cbn [fst snd].
+  rewrite component_min_padd, component_max_padd, bb_fold_tr. cbn [fst snd].
+  apply with_corners_translate.
+Qed.
+
+(* the fold only ever takes minima / maxima of corner coordinates: the box corners stay in the range of the segments *)
+Lemma bb_fold_big : forall segs mn mx, Forall seg_ok segs -> jpt_big mn -> jpt_big mx ->
+  jpt_big (fst (fold_left bb_step segs (mn, mx))) /\ jpt_big (snd (fold_left bb_step segs (mn, mx))).
+Proof.
+  induction segs as [|s rest IH]; intros mn mx F Hn Hx; [split; assumption|].
+  inversion F as [|? ? Hs Hr]; subst. cbn [fold_left]. rewrite bb_step_corners. cbn [fst snd].
+  destruct (ebb_corners_big s Hs) as [[A1 A2] [B1 B2]]. destruct Hn as [N1 N2]. destruct Hx as [X1 X2].
+  apply IH; [exact Hr | |]; unfold jpt_big, component_min, component_max in *; cbn [px py]; split; lia.
+Qed.
+
+Lemma rows_with_corners_big mn mx : jpt_big mn -> jpt_big mx ->
+  rows (with_corners mn mx) = (Z.min (py mn) (py mx), Z.max (py mn) (py mx) + 1).
+Proof.
+  intros [_ N] [_ X]. unfold jbig in *.
+  unfold rows, with_corners, size_from_bounding_box, sat_add_i32, sat_u32_to_i32, i32_min, i32_max; cbn [tl sz sh px py].
+  f_equal. lia.
+Qed.
+
+Lemma sbb_fold_form s rest : Forall seg_ok (s :: rest) ->
+  jpt_big (fst (fold_left bb_step (s :: rest) (P i32_max i32_max, P i32_min i32_min))) /\
+  jpt_big (snd (fold_left bb_step (s :: rest) (P i32_max i32_max, P i32_min i32_min))).
+Proof.
+  intros F. inversion F as [|? ? Hs Hr]; subst. cbn [fold_left]. rewrite (bb_step_init _ Hs).
+  destruct (ebb_corners_big s Hs) as [[A1 A2] [B1 B2]].
+  apply bb_fold_big; [exact Hr | |]; unfold jpt_big, component_min, component_max; cbn [px py]; split; lia.
+Qed.
+
+Lemma rows_sbb_tr d s rest :
+  Forall seg_ok (s :: rest) -> Forall seg_ok (map (tr_segment d) (s :: rest)) ->
+  rows (segments_bounding_box (map (tr_segment d) (s :: rest))) =
+  (fst (rows (segments_bounding_box (s :: rest))) + py d, snd (rows (segments_bounding_box (s :: rest))) + py d).
+Proof.
+  intros F1 F2.
+  pose proof (sbb_fold_form _ _ F1) as [M1 X1].
+  change (map (tr_segment d) (s :: rest)) with (tr_segment d s :: map (tr_segment d) rest) in F2.
+  pose proof (sbb_fold_form _ _ F2) as [M2 X2].
+  change (tr_segment d s :: map (tr_segment d) rest) with (map (tr_segment d) (s :: rest)) in M2, X2.
+  rewrite !segments_bounding_box_fold.
+  rewrite (rows_with_corners_big _ _ M1 X1), (rows_with_corners_big _ _ M2 X2). cbn [fst snd].
+  inversion F1 as [|? ? Hs _]; subst. inversion F2 as [|? ? Hs' _]; subst.
+  cbn [map fold_left]. rewrite (bb_step_init _ Hs), (bb_step_init _ Hs'), ebb_corners_tr. cbn [fst snd].
+  rewrite component_min_padd, component_max_padd, bb_fold_tr. cbn [fst snd].
+  unfold padd; cbn [py]. f_equal; lia.
+Qed.
+
+Lemma tsi_run_nonempty : forall fuel ws sj ej l2 w l, tsi_run ws sj ej l2 w fuel = Some l -> l <> [].
+Proof.
+  destruct fuel as [|f]; intros ws sj ej l2 w l H; [discriminate|].
+  cbn [tsi_run] in H. destruct ws as [|[[a b] c] ws'].
+  - destruct (lj_kind ej); try (injection H as <-; discriminate);
+      (destruct (lj_end (fst l2) (snd l2) w SONone); [|discriminate];
+       destruct (tsi_run [] ej _ l2 w f); [|discriminate]; injection H as <-; discriminate).
+  - destruct (lj_from_points a b c w SONone); [|discriminate].
+    destruct (tsi_run ws' ej _ l2 w f); [|discriminate]. injection H as <-. discriminate.
+Qed.
+
+Lemma thick_segment_iter_nonempty a b r w l : thick_segment_iter (a :: b :: r) w = Some l -> l <> [].
+Proof.
+  destruct r as [|c r].
+  - unfold thick_segment_iter. destruct (lj_start a b w SONone); [|discriminate].
+    destruct (lj_end a b w SONone); [|discriminate]. apply tsi_run_nonempty.
+  - rewrite thick_segment_iter_3. destruct (lj_start a b w SONone); [|discriminate].
+    destruct (lj_from_points a b c w SONone); [|discriminate].
+    destruct (last_opt (a :: b :: c :: r)); [|discriminate].
+    destruct (last_opt (removelast (a :: b :: c :: r))); [|discriminate]. apply tsi_run_nonempty.
+Qed.
+
+(* the range hypothesis of the pipeline: the corners of every thick segment lie within +-2^29 *)
+Definition poly_box_ok (pts : list point) (w : Z) : Prop :=
+  match thick_segment_iter pts w with Some segs => Forall seg_ok segs | None => True end.
+
+Lemma flat_map_map {A B C} (f : B -> list C) (g : A -> B) l : flat_map f (map g l) = flat_map (fun x => f (g x)) l.
+Proof. induction l as [|x t IH]; [reflexivity|]. cbn. rewrite IH. reflexivity. Qed.
+
+Lemma flat_map_ext' {A B} (f g : A -> list B) l : (forall x, f x = g x) -> flat_map f l = flat_map g l.
+Proof. intros H. induction l as [|x t IH]; [reflexivity|]. cbn. rewrite H, IH. reflexivity. Qed.
+
+Lemma map_flat_map {A B C} (f : A -> list B) (g : B -> C) l : map g (flat_map f l) = flat_map (fun x => map g (f x)) l.
+Proof. induction l as [|x t IH]; [reflexivity|]. cbn. rewrite map_app, IH. reflexivity. Qed.
+
+(* polyline::ScanlineIterator: every scanline of a polyline with moved vertices is the moved scanline *)
+Lemma poly_scanlines_tr w d pts :
+  poly_nosat pts w d = true -> poly_box_ok pts w -> poly_box_ok (map (tr_pt d) pts) w ->
+  poly_scanlines (map (tr_pt d) pts) w = option_map (map (tr_sl d)) (poly_scanlines pts w).
+Proof.
+  intros N B1 B2. destruct pts as [|a [|b r]]; try reflexivity.
+  unfold poly_box_ok in B1, B2. unfold poly_scanlines, poly_thick_bounding_box.
+  change (map (tr_pt d) (a :: b :: r)) with (tr_pt d a :: tr_pt d b :: map (tr_pt d) r).
+  cbv iota beta.
+  change (tr_pt d a :: tr_pt d b :: map (tr_pt d) r) with (map (tr_pt d) (a :: b :: r)).
+  rewrite (thick_segment_iter_tr w d _ N) in *. rewrite (poly_segments_tr w d _ N).
+  destruct (thick_segment_iter (a :: b :: r) w) as [bsegs|] eqn:TI; [|reflexivity]. cbn [option_map] in *.
+  destruct (poly_segments (a :: b :: r) w) as [segs|]; [|reflexivity]. cbn [option_map].
+  destruct bsegs as [|s rest]; [exfalso; exact (thick_segment_iter_nonempty _ _ _ _ _ TI eq_refl)|].
+  rewrite (rows_sbb_tr d s rest B1 B2).
+  destruct (rows (segments_bounding_box (s :: rest))) as [y0 y1]. cbn [fst snd option_map].
+  f_equal. rewrite range_shift, flat_map_map, map_flat_map.
+  apply flat_map_ext'. intros y.
+  apply filter_nonempty_rel. apply si_merge_rel. apply sl_rel_new_empty.
+Qed.
+
+(* C07 for thick polylines, vertices moved: pixels() yields the moved pixels, in the same order *)
+Lemma poly_thick_points_tr w d pts t :
+  poly_nosat pts w d = true -> poly_box_ok pts w -> poly_box_ok (map (tr_pt d) pts) w ->
+  poly_thick_points (map (tr_pt d) pts) t w = option_map (map (tr_pt d)) (poly_thick_points pts t w).
+Proof.
+  intros N B1 B2. unfold poly_thick_points. rewrite (poly_scanlines_tr w d pts N B1 B2).
+  destruct (poly_scanlines pts w) as [ls|]; [|reflexivity]. cbn [option_map]. f_equal.
+  rewrite flat_map_map, !map_flat_map. apply flat_map_ext'. intros s.
+  rewrite sl_points_tr, !map_map. apply map_ext. intros p. unfold tr_pt. pt_eq.
+Qed.
+
+(* ... and draw() issues the moved fill_solid rectangles, in the same order *)
+Lemma poly_thick_rects_tr w d pts :
+  poly_nosat pts w d = true -> poly_box_ok pts w -> poly_box_ok (map (tr_pt d) pts) w ->
+  poly_thick_rects (map (tr_pt d) pts) w = option_map (map (fun r => translate_rect r d)) (poly_thick_rects pts w).
+Proof.
+  intros N B1 B2. unfold poly_thick_rects. rewrite (poly_scanlines_tr w d pts N B1 B2).
+  destruct (poly_scanlines pts w) as [ls|]; [|reflexivity]. cbn [option_map]. f_equal.
+  induction ls as [|s ls IH]; [reflexivity|].
+  cbn [map filter]. rewrite sl_to_rectangle_tr.
+  assert (Z : is_zero_sized (translate_rect (sl_to_rectangle s) d) = is_zero_sized (sl_to_rectangle s)) by reflexivity.
+  rewrite Z. destruct (negb (is_zero_sized (sl_to_rectangle s))); cbn [map]; rewrite IH; reflexivity.
+Qed.
+
+(* C07 for thick polylines, translate field: the field is added to every pixel *)
+Lemma poly_thick_points_field w pts t d :
+  poly_thick_points pts (padd t d) w = option_map (map (tr_pt d)) (poly_thick_points pts t w).
+Proof.
+  unfold poly_thick_points. destruct (poly_scanlines pts w) as [ls|]; [|reflexivity]. cbn [option_map]. f_equal.
+  rewrite map_map. apply map_ext. intros p. unfold tr_pt. pt_eq.
+Qed.
+
+(* the styled bounding box moves with the vertices *)
+Lemma poly_thick_bounding_box_tr w d a b r :
+  poly_nosat (a :: b :: r) w d = true -> poly_box_ok (a :: b :: r) w -> poly_box_ok (map (tr_pt d) (a :: b :: r)) w ->
+  poly_thick_bounding_box (map (tr_pt d) (a :: b :: r)) w =
+  option_map (fun bb => translate_rect bb d) (poly_thick_bounding_box (a :: b :: r) w).
+Proof.
+  intros N B1 B2. unfold poly_box_ok in B1, B2. unfold poly_thick_bounding_box.
+  rewrite (thick_segment_iter_tr w d _ N) in *.
+  destruct (thick_segment_iter (a :: b :: r) w) as [bsegs|] eqn:TI; [|reflexivity]. cbn [option_map] in *.
+  destruct bsegs as [|s rest]; [exfalso; exact (thick_segment_iter_nonempty _ _ _ _ _ TI eq_refl)|].
+  f_equal. inversion B1; subst. inversion B2; subst. apply segments_bounding_box_tr; assumption.
+Qed.
